@@ -21,7 +21,7 @@ import traceback
 
 from .loop import HarnessError
 
-RUN_WALL_LIMIT = 300.0
+RUN_WALL_LIMIT = 900.0   # backstop for a whole child (a batch of cases); a single case is bounded by CASE_WALL
 
 _SRC = None
 
@@ -58,6 +58,7 @@ def run_in_child(fn, arg, wall_limit: float = RUN_WALL_LIMIT):
         try:
             os.close(r)
             faulthandler.dump_traceback_later(wall_limit * 0.9, exit=True)
+            _arm_wall_watchdog()   # (the parent's interval timer is not inherited across fork)
             try:
                 res = ("ok", fn(arg))
             except BaseException:  # harness exception inside the child
@@ -73,6 +74,12 @@ def run_in_child(fn, arg, wall_limit: float = RUN_WALL_LIMIT):
     chunks = []
     deadline = time.monotonic() + wall_limit
     timed_out = False
+    # while this process only waits for the child its own real-time watchdog (armed when a case forks sub-runs) is
+    # suspended: the child has its own
+    try:
+        prev_timer = signal.setitimer(signal.ITIMER_REAL, 0)
+    except (ValueError, OSError, AttributeError):
+        prev_timer = (0.0, 0.0)
     with os.fdopen(r, "rb") as f:
         fd = f.fileno()
         while True:
@@ -88,6 +95,8 @@ def run_in_child(fn, arg, wall_limit: float = RUN_WALL_LIMIT):
             if not b:
                 break
             chunks.append(b)
+    if prev_timer[0] > 0:
+        signal.setitimer(signal.ITIMER_REAL, prev_timer[0], prev_timer[1])
     if timed_out:
         try:
             os.kill(pid, signal.SIGKILL)
@@ -134,10 +143,40 @@ def call_run_case(mod, case):
         f = f.f_back
     old = sys.getrecursionlimit()
     sys.setrecursionlimit(depth + 1200)
+    armed = _arm_wall_watchdog()
+    hits0 = _WALL["hits"]
     try:
-        return mod.run_case(case)
+        res = mod.run_case(case)
+        if _WALL["hits"] > hits0 and isinstance(res, dict):
+            res["wall_hits"] = _WALL["hits"] - hits0
+        return res
     finally:
+        if armed:
+            signal.setitimer(signal.ITIMER_REAL, 0)
         sys.setrecursionlimit(old)
+
+
+CASE_WALL = float(os.environ.get("VERIF_CASE_WALL", "100"))   # real seconds one case may take (the slowest legitimate case: a few seconds)
+CASE_WALL_AGAIN = max(2.0, CASE_WALL / 10)   # further interruptions of the same case / first one of later cases
+_WALL = {"hits": 0}
+
+
+def _on_wall_alarm(signum, frame):
+    from .loop import SimWallBudget
+    _WALL["hits"] += 1
+    raise SimWallBudget("no return to the event loop within the real-time budget (busy loop?)")
+
+
+def _arm_wall_watchdog():
+    """A busy loop in library code never reaches the simulated loop's step cap; a real-time alarm interrupts it (signals
+    are handled between bytecodes) and the run ends like any other hang.  Main thread only."""
+    try:
+        signal.signal(signal.SIGALRM, _on_wall_alarm)
+        # once a busy loop has been interrupted in this process the generous first budget is not spent again
+        signal.setitimer(signal.ITIMER_REAL, CASE_WALL if not _WALL["hits"] else CASE_WALL_AGAIN, CASE_WALL_AGAIN)
+        return True
+    except (ValueError, OSError, AttributeError):
+        return False
 
 
 def run_case_entry(arg):
@@ -168,7 +207,10 @@ def _case_runner(indices):
     fresh child) would expose any other leak as a digest mismatch."""
     mod = _W["mod"]
     out = []
+    marker = os.environ.get("VERIF_ABORT_MARKER")
     for index in indices:
+        if marker and os.path.exists(marker):
+            break   # the check has seen enough runs that never return to the event loop and is wrapping up
         _reset_globals()
         case = mod.make_case(_W["tier"], _W["seed"], index)
         out.append(_slim(call_run_case(mod, case), index))
@@ -185,13 +227,25 @@ def _worker_chunk(indices):
     batch = max(1, int(getattr(_W["mod"], "BATCH", 1)))
     if _W.get("solo"):
         batch = 1
+    marker = os.environ.get("VERIF_ABORT_MARKER")
+    hangs = 0
     for s in range(0, len(indices), batch):
         part = indices[s:s + batch]
+        if marker and os.path.exists(marker):
+            break
         st, res = run_in_child(_case_runner, part)
         if st != "ok":
             out.extend({"index": i, "harness_error": res} for i in part)
         else:
             out.extend(res)
+            hangs += sum(1 for r in res if r.get("wall_hits"))
+            if marker and hangs >= 3:
+                # runs that never return to the event loop cost real time: tell every worker to wrap up (the check
+                # reports what has been seen so far)
+                try:
+                    open(marker, "w").close()
+                except OSError:
+                    pass
     return out
 
 
